@@ -239,11 +239,12 @@ pub fn gen_replay(seed: u64, focus_arg: &str) -> Replay {
     let cr3_low: u16 = if pcide { *rng.pick(&[0u16, 1, 5, 0x18, 0x7ff, 0xfff, rnd_pcid]) } else { *rng.pick(&[0u16, 0, 0x8, 0x10, 0x18]) };
     let zero_data = rng.chance(25);
     let even_garbage = rng.chance(15);
+    let sparse_garbage = rng.chance(20);
     let rec_alias = rng.chance(20);
     let persist = rng.chance(50);
     let enumerate_faults = focus == "C02" || rng.chance(30);
     let enumerate_ranges = if focus == "C10" { rng.chance(50) } else { rng.chance(4) };
-    let config = Config { view, alloc, garbage_seed: rng.next(), p4_frame, zone_seed: zones.seed, cr3_low, pcide, enumerate_faults, enumerate_ranges, tlb, zero_data, even_garbage, rec_alias, persist };
+    let config = Config { view, alloc, garbage_seed: rng.next(), p4_frame, zone_seed: zones.seed, cr3_low, pcide, enumerate_faults, enumerate_ranges, tlb, zero_data, even_garbage, sparse_garbage, rec_alias, persist };
 
     let len = match rng.below(100) {
         0..=49 => rng.range(3, 12),
